@@ -864,7 +864,7 @@ Definition m_iter_elems (h : heap) (src : hval) : heap * option (list hval) :=
       | KStr =>
         let '(h1, es) :=
           fold_left (fun acc kv => let '(hh, es) := acc in
-                                   let '(hh1, l') := alloc hh KStr [(nokey, snd kv)] in (hh1, es ++ [HRef l' None]))
+                                   let '(hh1, l') := alloc (clone_val hh (snd kv)) KStr [(nokey, snd kv)] in (hh1, es ++ [HRef l' None]))
                     (citems c) (h, []) in
         (h1, Some es)
       | _ => if cnt c =? 1
